@@ -65,8 +65,10 @@ type c10State struct {
 	attempts    []c10Attempt
 	cancel      stdcontext.CancelFunc
 	asyncAfter  int // cancel from another goroutine right after attempt #asyncAfter returned (-1: never)
-	cancelled   bool
+	cancelAsked bool          // set BEFORE cancel() is called
+	cancelled   bool          // set after cancel() has returned
 	cancelledAt time.Duration // when cancel() had returned
+	wg          sync.WaitGroup // cancelling goroutines
 }
 
 var (
@@ -76,6 +78,12 @@ var (
 )
 
 var errC10Refused = errors.New("dial tcp 10.10.0.1:80: connect: connection refused (scripted)")
+
+func (st *c10State) askCancel() {
+	st.mu.Lock()
+	st.cancelAsked = true
+	st.mu.Unlock()
+}
 
 func (st *c10State) noteCancelled() {
 	st.mu.Lock()
@@ -126,6 +134,7 @@ func c10Transport(r *http.Request, _ *http.Client) (*http.Response, error) {
 		<-r.Context().Done()
 		err = r.Context().Err()
 	case "cancel":
+		st.askCancel()
 		st.cancel()
 		st.noteCancelled()
 		err = r.Context().Err()
@@ -133,7 +142,10 @@ func c10Transport(r *http.Request, _ *http.Client) (*http.Response, error) {
 			err = stdcontext.Canceled
 		}
 	case "hangcancel":
+		st.askCancel()
+		st.wg.Add(1)
 		go func() {
+			defer st.wg.Done()
 			st.cancel()
 			st.noteCancelled()
 		}()
@@ -158,7 +170,10 @@ func c10Transport(r *http.Request, _ *http.Client) (*http.Response, error) {
 	async := st.asyncAfter == idx
 	st.mu.Unlock()
 	if async {
+		st.askCancel()
+		st.wg.Add(1)
 		go func() {
+			defer st.wg.Done()
 			st.cancel()
 			st.noteCancelled()
 		}()
@@ -287,11 +302,16 @@ type c10Result struct {
 	Body        string        `json:"body"`
 	Panic       string        `json:"panic,omitempty"`
 	PanicAt     string        `json:"panic_at,omitempty"`
+	CancelAsked bool          `json:"cancel_asked"`
 	Cancelled   bool          `json:"cancelled"`
 	CancelledAt time.Duration `json:"cancelled_at_ns"`
 	Returned    time.Duration `json:"returned_ns"`
 	Watchdog    bool          `json:"watchdog"`
 }
+
+// c10Watchdog is the harness' own outer bound for one client request (a full retry sequence
+// is < 1 s of back-off); generous because the machine is shared.  Firing => inconclusive.
+const c10Watchdog = 120 * time.Second
 
 var c10Payload = []byte("payload-of-the-client-request")
 
@@ -335,7 +355,7 @@ func c10Do(p *Proxy, script []c10Step, stream bool, asyncAfter int, panicSite fu
 	}()
 	select {
 	case <-done:
-	case <-time.After(30 * time.Second):
+	case <-time.After(c10Watchdog):
 		// harness watchdog: release whatever hangs, then report inconclusive
 		cancel()
 		select {
@@ -348,9 +368,10 @@ func c10Do(p *Proxy, script []c10Step, stream bool, asyncAfter int, panicSite fu
 		return out
 	}
 	res.Returned = time.Since(st.t0)
+	st.wg.Wait() // a cancelling goroutine finishes its bookkeeping
 	st.mu.Lock()
 	res.Attempts = append([]c10Attempt{}, st.attempts...)
-	res.Cancelled, res.CancelledAt = st.cancelled, st.cancelledAt
+	res.CancelAsked, res.Cancelled, res.CancelledAt = st.cancelAsked, st.cancelled, st.cancelledAt
 	st.mu.Unlock()
 	if res.Panic == "" {
 		if resp, ok := ctx.GetOutputResponse().(*httpprot.Response); ok && resp != nil {
